@@ -406,9 +406,10 @@ func (v *c17StaleVal) Release() { atomic.AddInt32(v.n, 1) }
 //	A: resumes, sees closed, callFinalizer(n): the value is released while B's handle is outstanding
 //	   (Handle.Value() of B's handle is nil from then on).
 //
-// A stress like c17StaleFinalizer (about 85 hits per million trials).  This is an OPEN defect of the code
-// (unRefExternal decides it holds the last reference before it synchronises with Close), so the stress is OPT-IN:
-// VERIF_C17_UNDER_HANDLE=<seconds>; reported under cache.Close:unRefExternal-race:finalised-under-handle.
+// A stress like c17StaleFinalizer (about 85 hits per million trials on the code before the repair of D32; none
+// since the closed branch of unRefExternal re-checks the counter).  Part of every C17 run as a regression detector:
+// 3 s in the quick tier, 60 s in the thorough tier (VERIF_C17_UNDER_HANDLE=<seconds> overrides, 0 disables);
+// reported under cache.Close:unRefExternal-race:finalised-under-handle.
 func c17FinaliseUnderHandle(c *Ctx, seconds int) {
 	deadline := time.Now().Add(time.Duration(seconds) * time.Second)
 	trials, hits := 0, 0
@@ -461,8 +462,12 @@ func c17Concurrent(c *Ctx) {
 	if staleSec > 0 {
 		c17StaleFinalizer(c, staleSec)
 	}
-	if sec, _ := strconv.Atoi(os.Getenv("VERIF_C17_UNDER_HANDLE")); sec > 0 {
-		c17FinaliseUnderHandle(c, sec)
+	underSec := c.Scale(3, 60)
+	if sec, err := strconv.Atoi(os.Getenv("VERIF_C17_UNDER_HANDLE")); err == nil {
+		underSec = sec
+	}
+	if underSec > 0 {
+		c17FinaliseUnderHandle(c, underSec)
 	}
 	s := &ccStress{c: c, viol: map[string]string{}}
 	r := c.R.Fork()
